@@ -156,6 +156,31 @@ class NativeSym(object):
     def has_digit_run(self, s, k):
         return any(all("0" <= ch <= "9" for ch in s[i:i + k]) for i in range(len(s) - k + 1))
 
+    def symbolic_fs(self, entries):
+        """materialise the model's layout as a real directory tree"""
+        import os
+        root = os.path.join(self.scratch_dir(), "root")
+        bits = {}
+        for i, rel in enumerate(sorted(entries)):
+            bits[rel] = bool(self._get("fs%d" % i, False))
+        for rel in sorted(entries):
+            parent = os.path.dirname(rel)
+            if rel and parent in bits and bits[rel] and not bits[parent]:
+                self.bad_input.append("fs:" + rel)
+            if rel and parent == "" and "" in bits and bits[rel] and not bits[""]:
+                self.bad_input.append("fs:" + rel)
+        for rel in sorted(entries):
+            if not bits[rel]:
+                continue
+            p = os.path.join(root, rel) if rel else root
+            if entries[rel] is None:
+                os.makedirs(p, exist_ok=True)
+            else:
+                os.makedirs(os.path.dirname(p), exist_ok=True)
+                with open(p, "w") as f:
+                    f.write(entries[rel])
+        return root, bits
+
     def scratch_dir(self):
         import tempfile
         import atexit
